@@ -107,6 +107,155 @@ func literalAlternations(pat string) map[int][]string {
 	return out
 }
 
+// groupAlternatives returns, for every capturing group of pat, the finite language of each of
+// its top-level alternatives in order (a group without `|` has one alternative), or ok=false
+// for a group whose body uses anything but literals, escapes, character classes and `?`.
+func groupAlternatives(pat string) map[int]groupAlts {
+	out := map[int]groupAlts{}
+	group := 0
+	type frame struct {
+		idx   int
+		start int
+	}
+	var stack []frame
+	for i := 0; i < len(pat); i++ {
+		switch pat[i] {
+		case '\\':
+			i++
+		case '[':
+			for i++; i < len(pat) && pat[i] != ']'; i++ {
+				if pat[i] == '\\' {
+					i++
+				}
+			}
+		case '(':
+			if i+1 < len(pat) && pat[i+1] == '?' {
+				stack = append(stack, frame{0, i + 1})
+			} else {
+				group++
+				stack = append(stack, frame{group, i + 1})
+			}
+		case ')':
+			if len(stack) == 0 {
+				return out
+			}
+			f := stack[len(stack)-1]
+			stack = stack[:len(stack)-1]
+			if f.idx == 0 {
+				continue
+			}
+			out[f.idx] = enumerateAlts(pat[f.start:i])
+		}
+	}
+	return out
+}
+
+type groupAlts struct {
+	OK   bool
+	Alts [][]string
+}
+
+func enumerateAlts(body string) groupAlts {
+	// split at top-level '|'
+	var parts []string
+	cur := ""
+	for i := 0; i < len(body); i++ {
+		switch body[i] {
+		case '\\':
+			if i+1 < len(body) {
+				cur += body[i : i+2]
+				i++
+			}
+		case '[':
+			j := i
+			for i++; i < len(body) && body[i] != ']'; i++ {
+				if body[i] == '\\' {
+					i++
+				}
+			}
+			if i < len(body) {
+				cur += body[j : i+1]
+			}
+		case '|':
+			parts = append(parts, cur)
+			cur = ""
+		case '(', ')':
+			return groupAlts{}
+		default:
+			cur += string(body[i])
+		}
+	}
+	parts = append(parts, cur)
+	var res groupAlts
+	for _, p := range parts {
+		lang := []string{""}
+		for i := 0; i < len(p); {
+			var atom []string
+			switch c := p[i]; {
+			case c == '\\' && i+1 < len(p):
+				if strings.ContainsRune("dDsSwWbBpPAzZ", rune(p[i+1])) {
+					return groupAlts{}
+				}
+				atom = []string{string(p[i+1])}
+				i += 2
+			case c == '[':
+				j := i + 1
+				neg := j < len(p) && p[j] == '^'
+				if neg {
+					return groupAlts{}
+				}
+				for ; j < len(p) && p[j] != ']'; j++ {
+					ch := p[j]
+					if ch == '\\' && j+1 < len(p) {
+						j++
+						ch = p[j]
+					}
+					if j+2 < len(p) && p[j+1] == '-' && p[j+2] != ']' {
+						lo, hi := ch, p[j+2]
+						if hi < lo || hi-lo > 16 {
+							return groupAlts{}
+						}
+						for x := lo; x <= hi; x++ {
+							atom = append(atom, string(x))
+						}
+						j += 2
+						continue
+					}
+					atom = append(atom, string(ch))
+				}
+				i = j + 1
+			case strings.ContainsRune("*+.{}^$", rune(c)):
+				return groupAlts{}
+			case c == '?':
+				return groupAlts{} // dangling
+			default:
+				atom = []string{string(c)}
+				i++
+			}
+			if i < len(p) && p[i] == '?' {
+				atom = append(atom, "")
+				i++
+				if i < len(p) && p[i] == '?' {
+					return groupAlts{} // non-greedy: order differs
+				}
+			}
+			var next []string
+			for _, l := range lang {
+				for _, a := range atom {
+					next = append(next, l+a)
+				}
+			}
+			if len(next) > 128 {
+				return groupAlts{}
+			}
+			lang = next
+		}
+		res.Alts = append(res.Alts, lang)
+	}
+	res.OK = true
+	return res
+}
+
 type reShape struct {
 	AnchoredStart, AnchoredEnd bool
 	Groups                     int
@@ -249,6 +398,53 @@ func propC14(r *Run, w *World) {
 					}
 				}
 				r.Check(hidden == "", fmt.Sprintf("%s group %d alternation order", g.Name(), gi), pos, strings.Join(alts, " "), fmt.Sprintf("pattern %q, group %d: %s and always wins (Go tries alternatives left to right), so the longer operator is split: its tail becomes part of the value", pat, gi, hidden))
+			}
+			// the operator group is a finite language: it must be exactly the operators the encoder
+			// knows (-F) or =, != (-C), and no string of an earlier alternative may be a proper
+			// prefix of a string of a later one (leftmost-first alternation would split the longer
+			// operator and push its tail into the value)
+			if ga, have := groupAlternatives(pat)[2]; !have || !ga.OK {
+				r.Undecided(g.Name()+" operator group", pos, fmt.Sprintf("pattern %q: the operator group is not a finite alternation of literals and character classes", pat))
+			} else {
+				lang := map[string]bool{}
+				hidden := ""
+				for i, ai := range ga.Alts {
+					for _, si := range ai {
+						lang[si] = true
+						for j := i + 1; j < len(ga.Alts); j++ {
+							for _, sj := range ga.Alts[j] {
+								if len(si) < len(sj) && strings.HasPrefix(sj, si) {
+									hidden = fmt.Sprintf("%q (alternative %d) is tried before %q (alternative %d)", si, i+1, sj, j+1)
+								}
+							}
+						}
+					}
+				}
+				r.Check(hidden == "", g.Name()+" operator alternatives ordered", pos, "", fmt.Sprintf("pattern %q: %s and always wins, so the longer operator is split: its tail becomes part of the value", pat, hidden))
+				want := map[string]bool{"=": true, "!=": true}
+				if g.Name() == "filterRegexp" {
+					want = map[string]bool{}
+					if ents, _, _, err := w.MapLit("rule", "operatorsTable"); err == nil {
+						for _, e := range ents {
+							want[e.KeyStr()] = true
+						}
+					}
+				}
+				var extra, missing []string
+				for k := range lang {
+					if !want[k] {
+						extra = append(extra, k)
+					}
+				}
+				for k := range want {
+					if !lang[k] {
+						missing = append(missing, k)
+					}
+				}
+				sort.Strings(extra)
+				sort.Strings(missing)
+				r.Check(len(extra) == 0 && len(missing) == 0 && len(want) > 0, g.Name()+" operator set", pos, fmt.Sprintf("%d operators", len(want)),
+					fmt.Sprintf("pattern %q: the operator group accepts %q that the encoder does not know, and does not accept %q", pat, extra, missing))
 			}
 			// a non-match is an error; groups wired in order
 			undo := alias(call, "m")
